@@ -10,3 +10,10 @@ package reflectx
 //@ trusted
 //@ assigns nothing
 //@ ensures [is-implements] result == TypeImplements(typ, _interface)
+
+// Id(o): the default component name: package path + type name of o's dynamic type (A-REFLECT); a function of o's type.
+//@ spec func IdOf(o any) string
+//@ func Id
+//@ trusted
+//@ assigns nothing
+//@ ensures [type-id] result == IdOf(c)
